@@ -86,12 +86,15 @@ _STR_PLAIN = "abcXYZ 019_-+=.,;:#()[]{}<>/*!?$%&@^~|`\""
 
 
 @st.composite
-def string_texts(draw, maxlen=12):
-    """Exchange-form string content (between the quotes)."""
+def string_texts(draw, maxlen=12, plain=False):
+    """Exchange-form string content (between the quotes). plain: no delimiter characters ( ) , ; and no quotes."""
     n = draw(st.sampled_from([0, 1, 1, 2, 3, 5, 8, maxlen]))
     out = []
     for _ in range(n):
         c = draw(st.integers(0, 29))
+        if plain:
+            out.append(draw(st.sampled_from("abcXYZ 019_-+=.:#[]{}<>!?$%&@^~|`")))
+            continue
         if c < 20:
             out.append(draw(st.sampled_from(_STR_PLAIN)))
         elif c < 22:
@@ -241,7 +244,9 @@ class PopBuilder:
                 return ["n", v]
             return ["n", draw(real_texts(self.cfg.get("real_digits", 15)))]
         if kind == "STRING":
-            return ["s", draw(string_texts(self.cfg.get("max_str", 12)))]
+            if self.cfg.get("plain_strings"):
+                self.excl("string containing a delimiter ( ) , ; or a quote (finding F46, fault recovery is not string aware)")
+            return ["s", draw(string_texts(self.cfg.get("max_str", 12), self.cfg.get("plain_strings", False)))]
         if kind == "BOOLEAN":
             return ["b", draw(st.sampled_from("TF"))]
         if kind == "LOGICAL":
